@@ -4,9 +4,9 @@ tier=$1; shift
 cd /verif
 for s in "$@"; do
   for p in C01 C02 C03 C04 C05 C06 C07 C08 C09 C10 C11 C12 C13 C14 C15 C16 C17; do
-    ./check $p --tier $tier --seed $s > /tmp/soak_$p_$s.out 2>&1; rc=$?
-    echo "$p seed=$s rc=$rc $(grep -c '^VIOLATION' /tmp/soak_$p_$s.out) $(grep '^\[' /tmp/soak_$p_$s.out | tail -1 | cut -c1-160)"
-    grep '^VIOLATION\|oracle:\|model:' /tmp/soak_$p_$s.out | head -4 | cut -c1-300
+    ./check $p --tier $tier --seed $s > /tmp/soak_${p}_${s}.out 2>&1; rc=$?
+    echo "$p seed=$s rc=$rc $(grep -c '^VIOLATION' /tmp/soak_${p}_${s}.out) $(grep '^\[' /tmp/soak_${p}_${s}.out | tail -1 | cut -c1-160)"
+    grep '^VIOLATION\|oracle:\|model:' /tmp/soak_${p}_${s}.out | head -4 | cut -c1-300
   done
 done
 git -C /verif checkout -- evidence
